@@ -443,7 +443,6 @@ cgsisx(superlu_options_t *options, SuperMatrix *A, int *perm_c, int *perm_r,
     notran = (options->Trans == NOTRANS);
     mc64 = (options->RowPerm == LargeDiag_MC64);
     if ( nofact ) {
-	if ( lwork != -1 ) *(unsigned char *)equed = 'N';
 	rowequ = FALSE;
 	colequ = FALSE;
     } else {
@@ -526,6 +525,8 @@ cgsisx(superlu_options_t *options, SuperMatrix *A, int *perm_c, int *perm_r,
 	mem_usage->total_needed = *info - A->ncol;
 	return;
     }
+
+    if ( nofact ) *(unsigned char *)equed = 'N';
 
     /* Initialization for factor parameters */
     panel_size = sp_ienv(1);
